@@ -58,6 +58,7 @@ Definition st_den (i : Decode.instr) (s : IL.mstate) :=
 Definition st_sort_uniq := Emu.sort_uniq.
 
 Definition sp_exec := Spec.spec_exec.
+Definition ts_safe := Emu.instr_temps_safe.
 
 Extraction "Extract/model.ml"
   BinInt.Z.add timer_py_run timer_rs_run timer_py_init timer_rs_init
@@ -68,4 +69,4 @@ Extraction "Extract/model.ml"
   sched_spawn_all sched_drive
   mem_py_run mem_rs_run mem_card_slot
   il_lift il_fetch il_set_pc il_mk_state il_exec_at il_steps il_obs_regs il_obs_writes il_rlog il_wlog il_halted il_temps
-  st_analyze st_render_ops st_den st_sort_uniq sp_exec.
+  st_analyze st_render_ops st_den st_sort_uniq sp_exec ts_safe.
